@@ -1,8 +1,35 @@
-import Sucds.Proofs.WMr
-/-! # C05 — WaveletMatrix access/rank/select (partial): over spec-level layers (stable partitions of the
-    sequence by bit), the interval `[start_d, end_d)` followed by `rank_range` holds exactly the elements
-    of `s[a..b)` agreeing with `v` on the top `d` bits, hence the final width is the number of occurrences. -/
+import Sucds.Proofs.WaveletBackings
+/-! # C05 — WaveletMatrix access/rank/select equal the stored integer sequence
+
+For every non-empty sequence `s` with `max s + 1 < 2^64` (so that `alph_size = max + 1` is representable),
+`n = |s| < 2^63`, each of the three supported backings (`Rank9Sel` with both hint tables, `DArray` with rank and
+select0 indexes, plain `BitVector` — `backing_ok`, from C01/C02/C07), every build configuration and **every**
+argument: `WaveletMatrix::new` succeeds; `access(i) = s[i]` (`None` iff `i ≥ n`); `rank_range(a..b, v)` = number
+of occurrences of `v` in `s[a..b)` and `None` iff `b > n` (empty and reversed ranges within bounds give 0);
+`rank(p, v) = rank_range(0..p, v)`; `select(k, v)` = position of the k-th occurrence of `v`, `None` iff there are
+at most `k`; for every `v`, including values that do not occur or exceed every stored value;
+`len = n`, `alph_size = max + 1`. `new` on an empty sequence is `Err`. Nothing panics. -/
 namespace Sucds.C05
-theorem rank_range_counts : type_of% (@WMr.rank_range_ok) := @WMr.rank_range_ok
-theorem slice_invariant : type_of% (@WMr.slice_inv) := @WMr.slice_inv
+open Sucds Sucds.Spec Sucds.Wav
+
+def Statement : Prop :=
+  ∀ (c : Cfg) (k : Backing) (s : List Nat), s ≠ [] → s.foldl max 0 + 1 < 2^64 → s.length < 2^63 →
+    ∃ wm, WM.new c k s = .ok (some wm) ∧
+      wm.alphSize = s.foldl max 0 + 1 ∧ wm.len = s.length ∧
+      (∀ i, wm.access c i = .ok s[i]?) ∧
+      (∀ a b v, wm.rankRange c a b v = .ok (if b ≤ s.length then some (((s.take b).drop a).count v) else none)) ∧
+      (∀ p v, wm.rank c p v = .ok (if p ≤ s.length then some ((s.take p).count v) else none)) ∧
+      (∀ j v, wm.select c j v = .ok (sel (fun i => decide (s[i]? = some v)) s.length j))
+
+theorem holds : Statement := by
+  intro c k s hne hmax hn
+  have hn64 : s.length < 2^64 := Nat.lt_of_lt_of_le hn (by decide)
+  obtain ⟨wm, hnew, hb⟩ := new_ok c k s ((backing_ok c k).for _) hne hmax hn64
+  exact ⟨wm, hnew, hb.alph, hb.len, access_ok c wm s hb, rankRange_ok c wm s hb, rank_ok c wm s hb,
+    select_ok c wm s hb hn⟩
+
+theorem new_empty (c : Cfg) (k : Backing) : WM.new c k [] = .ok none := new_nil c k
+
+/-- the three backings build correct layers in every configuration (C01, C02, C07) -/
+theorem backings (c : Cfg) (k : Backing) : BackingOK c k := backing_ok c k
 end Sucds.C05
